@@ -172,6 +172,10 @@ def c16_scenarios(tier):
             out.append(("c16", {"n": max(w), "pos": "chain", "ncmd": ncmd, "widths": w}, {}))
     for n in ([40] if tier == "quick" else [24, 40, 48]):
         out.append(("c16", {"n": n, "pos": "only", "ncmd": 2}, {}))
+    # all members of the group execute one shared file
+    for n in ([2, 5] if tier == "quick" else [2, 3, 5, 13]):
+        for shared in ("definitions", "commands.path"):
+            out.append(("c16", {"n": n, "pos": "middle", "ncmd": 1, "shared": shared}, {}))
     # with a log tail listener attached (everything admitted / a filter admitting two members / one member)
     for n in ([2, 5, 13] if tier == "quick" else [2, 3, 5, 13, 34]):
         for lis in (["--stdout", "--stderr"], ["--stdout", "-t", "g00", "g01"], ["--stderr", "-t", "g00"]):
@@ -213,10 +217,25 @@ def c16_task(desc):
     else:
         ts, group = c16_build(n, pos)
     cmds = ["build", "test"][:ncmd]
-    sn = sched.Scenario("group%d/%s/%dcmd" % (n, pos, ncmd), ts, all_x(ts, cmds), ["-c"] + cmds, cmds)
+    modes = all_x(ts, cmds)
+    if desc.get("shared"):
+        # every target resolves the command to ONE shared executable (definitions with the same path,
+        # or one shared commands.path directory)
+        for t in ts:
+            if desc["shared"] == "definitions":
+                t["commands"] = {"definitions": {c: {"path": "tools/%s.sh" % c} for c in cmds}}
+            else:
+                t["commands"] = {"path": "tools"}
+            for c in cmds:
+                modes[(t["path"], c)] = None
+    sn = sched.Scenario("group%d/%s/%dcmd" % (n, pos, ncmd), ts, modes, ["-c"] + cmds, cmds)
     s = sc.Scratch("c16")
     try:
         r = sched.build_repo(s, sn)
+        if desc.get("shared"):
+            for c in cmds:
+                r.command_file("", c, "x", cmd_dir="tools", name="%s.sh" % c)
+            r.commit("shared tools")
         groups, _ = sched.expected_groups(r, sn)
         viol = []
         c = sched.ctlmod.Controller(s)
@@ -797,7 +816,7 @@ def run_tasks(tasks, workers=None):
 
 RULES = {
     "C04": "(thorough adds every labelled DAG on 2-4 nodes, single command, every release order) scenarios: 12 dependency shapes x selection modes (all targets / changed subset after a checkpoint / -t with --deps) x command lists (build; build test; sequence(build,test) then lint); every child blocks until released; stateless DFS over every release order (single-command scenarios: all orders; multi-command: all schedules with <= max_dev non-default choices) plus the eager deviation for every single child; monitor: at each arrival every dependency in the run and every executable of every earlier command has exited; evaluations = executions (complete runs); non-trivial = scenarios with more than one schedule",
-    "C16": "(plus group sizes 2..13 with a `log tail` listener attached, three filter variants) (plus chains of wide groups, e.g. 30/30/10 and 40/40 under 1-2 commands, so that many tasks precede the group under test) group sizes x position of the group in the plan (only, first, middle, last) x 1-2 commands; no member is released before every member of the group has arrived (each member waits for all the others to start); oracle: every member arrives, then the run exits 0 with all success entries; non-trivial = scenarios where the full group rendezvoused for every command",
+    "C16": "(plus groups whose members all resolve the command to one shared executable, through definitions or a shared commands.path) (plus group sizes 2..13 with a `log tail` listener attached, three filter variants) (plus chains of wide groups, e.g. 30/30/10 and 40/40 under 1-2 commands, so that many tasks precede the group under test) group sizes x position of the group in the plan (only, first, middle, last) x 1-2 commands; no member is released before every member of the group has arrived (each member waits for all the others to start); oracle: every member arrives, then the run exits 0 with all success entries; non-trivial = scenarios where the full group rendezvoused for every command",
     "C06": "part B (internal orderings): plans with a group of n in {1,2,3} (thorough 4) followed by a dependent target, all commands succeed, points group.pre_shutdown:<i> and compressor.gone:<x> active; the free run, every single constraint `compressor.gone:x before group.pre_shutdown:i` per group and pairs of constraints (hit b is held until hit a was seen); oracle exit 0, failed=false, all success, stored logs complete. part A: plans = dependency shapes with two commands; fault assignments: every single fault (exit codes, death by signal, missing x bit, undefined with/without --fail-on-undefined) at every (command,target) position, pairs of faults within a command, and no fault; for each every release order of the groups (<=3 members); oracle: failed flag, exit status, skipped/not-started later groups and commands, status truthfulness; evaluations = executions",
     "C05": "(plus variants in which some targets define the command through commands.definitions with explicit paths and the declaration order is reversed) dependency shapes x command-definition patterns x command lists x selection modes (no targets without checkpoint; checkpoint + every changed subset; -t S; -t S --deps; the -t forms also with a checkpoint present) in trace mode; oracle: result document pairs == commands x selected targets exactly once, groups equal analyze --target-groups taken immediately before (or singletons / a valid layering of the closure), executable starts at most once, exactly once iff defined and nothing failed earlier, never when undefined; evaluations = runs",
 }
